@@ -175,7 +175,47 @@ def plan_C12(ctx):
     ctx.exhaustive = True
 
 
+def plan_C13(ctx):
+    ctx.rule = ("TLC enumerates 21 collections (literal, var/merge/filter-computed, null, non-arrays, erroring) x 17 element expressions (identity, field, arithmetic, "
+                "outer reference, non-commutative cat, nested map/filter/reduce, log probes, poisons) x 2 outer data for map and filter, and x 14 reducer expressions x 8 "
+                "initial values for reduce; values, Ok/Err and the exact log sequence are compared; one case per TLC state")
+    cases = ctx.mc("MC_C13")
+    ctx.replay(cases)
+    ctx.exhaustive = True
+
+
+def plan_C14(ctx):
+    ctx.rule = ("TLC enumerates all/some/none x 36 collections (literal arrays with expression, log-probe and poison elements; computed arrays incl. rule-shaped data; "
+                "literal and computed strings over ASCII/2-/3-/4-byte characters; null; empty; non-collections) x 14 predicates x 3 data; values, Ok/Err and the exact "
+                "log sequence (= which elements were evaluated) are compared; one case per TLC state")
+    cases = ctx.mc("MC_C14")
+    ctx.replay(cases)
+    ctx.exhaustive = True
+
+
+def plan_C15(ctx):
+    ctx.rule = ("TLC enumerates merge over all operand lists of length 0..%d from 15 values (nested arrays, objects, scalars) plus the bracket-less form, and in over "
+                "37 needles x 29 haystacks (number spellings 1/1.0/1e0/0/-0.0, nested containers, objects with reordered keys, non-ASCII substrings, ill-typed pairs), "
+                "as literals and through var; one case per TLC state" % (4 if ctx.deep else 3))
+    cases = ctx.mc("MC_C15")
+    ctx.replay(cases)
+    ctx.exhaustive = True
+
+
+def plan_C16(ctx):
+    ctx.rule = ("TLC enumerates cat over operand lists of length 0..2 from 34 values (numbers in several spellings, nested arrays with nulls, objects) and length 3 over 10 values, "
+                "and substr over all strings of length 0..%d from {a, e-acute, euro sign, emoji} x 18 start values x (absent + 18 length values) incl. the 64-bit extremes; "
+                "one case per TLC state" % (4 if ctx.deep else 3))
+    cases = ctx.mc("MC_C16")
+    ctx.replay(cases)
+    ctx.exhaustive = True
+
+
 PLANS = {
+    "C15": plan_C15,
+    "C16": plan_C16,
+    "C14": plan_C14,
+    "C13": plan_C13,
     "C12": plan_C12,
     "C11": plan_C11,
     "C10": plan_C10,
